@@ -11,7 +11,7 @@ CHECKS = {
              "enumerated configuration is replayed into Mesh.write() under forced set-iteration schedules and the parsed "
              "file / exception class compared with the specification's outcome; random real-shape assemblies are recorded "
              "and judged by TLC (GradingJudge.tla)."
-             " Every configuration is written twice (Grading.tla Regrade action). The repository's example scripts are run unmodified as recorded executions and every dictionary they write is judged by File.tla (CountsAgree).",
+             " Every configuration is written twice (Grading.tla Regrade action) - after an error too, which must then come again. The repository's example scripts are run unmodified as recorded executions and every dictionary they write is judged by File.tla (CountsAgree).",
         note="Trusted: the blockMeshDict parser (harness/bmd.py), the lattice abstraction (positions -> lattice ids), "
              "TLC. Bounded: <=4 blocks in the enumerated part, real shapes only sampled.",
         technique="TLA+ spec Grading.tla + TLC exhaustive check; spec-generated configurations replayed into the code; "
@@ -23,7 +23,7 @@ CHECKS = {
              "model; the same configurations are replayed into the code under forced schedules with a step budget, files "
              "compared across schedules; a four-block chain fed from one end is checked and replayed in every insertion "
              "order; random assemblies judged by TLC."
-             " A 'multi' part covers two-section chops between two blocks in six relative numberings; cover/chain/multi configurations are written twice (Regrade).",
+             " A 'multi' part covers two-section chops between two blocks in six relative numberings, a 'swap4' part a row of four whose inner blocks have their first two directions swapped; cover/chain/multi/swap4 configurations are written twice (Regrade).",
         note="Schedule control replaces Axis.neighbours / Wire.coincidents by a set subclass with a chosen iteration order "
              "(no source hook). Set iteration of the int worklist is over-approximated in the model.",
         technique="TLA+ spec Grading.tla: safety + liveness (WF) by TLC; schedule-forcing replay of spec configurations; "
@@ -36,7 +36,7 @@ CHECKS = {
              "ones); every history is replayed through the real Mesh API and each written file compared (parsed, "
              "numbering-independent) with the file of the fresh model, entity points with the model's positions.",
         note="Oracle is relational: the fresh model is written by the same library; faithfulness of a single write is C06. "
-             "Operations are lattice boxes with count chops; calls the statement does not speak about (add/delete/merge "
+             "Operations are lattice boxes; the first takes its cells across from its neighbour, the others are chopped by first cell size (a model that cannot be graded must fail like its fresh model); calls the statement does not speak about (add/delete/merge "
              "while assembled) are not generated.",
         technique="TLA+ spec Mesh.tla: TLC BFS/-simulate generates histories + expected fresh model; replay into the real API",
         ref="DESIGN.md section 4 C12, Appendix B"),
@@ -112,8 +112,8 @@ CHECKS = {
              "exact mid point; integer dot/cross products fixing the included angle) and TLC checks the mid-point/reflection "
              "identities; every instance is mapped by a random similarity and AngleEdge (both signs), OriginEdge, ArcEdge and "
              "arc_length_3point are compared with the exact mid point and R*theta; chord bound for every edge kind."
-             " The same edge object is re-evaluated after both vertices moved (exact: the arc scaled about its centre).",
-        note="Only angles with rational sine/cosine are exact instances (Pythagorean triples of radius 5 and 25); arbitrary "
+             " The same edge object is re-evaluated after both vertices moved (exact: the arc scaled about its centre). Nearly half circles (included angle or its complement above 174 degrees) come from lattice pairs of radius 325 with a rational far end.",
+        note="Only angles with rational sine/cosine are exact instances (Pythagorean triples of radius 5 and 25, pairs of radius 325); arbitrary "
              "orientation and radius come from the similarity. Origin arcs are judged as the minor arc (flatness 1).",
         technique="TLA+ spec Arc.tla/Lattice.tla: TLC-enumerated exact instances with spec-level identities; instance evaluation "
                   "of the implementation under similarity conjugation",
@@ -124,7 +124,7 @@ CHECKS = {
              "evaluated for every renumbering, under random rigid motions and scalings, with and without a neighbour, and for "
              "stretched cubes; TLC judges the recorded values: equal within tolerance inside every orbit, non-decreasing and "
              "direction-independent under stretching."
-             " The neighbour cell's value and the same grid object after a rigid motion through GridBase.update are recorded as well.",
+             " The neighbour cell's value and the same grid object after a rigid motion through GridBase.update are recorded as well; neighbours are straight and bent, in all 24 x 24 numberings of the pair.",
         note="Values are abstracted to integer codes round(1e7 ln(1+q)); tolerance 5 codes for renumbering/rigid motion, "
              "0.1 in ln(1+q) for the loose scaling family (sizes >= 1); the strict scaling statement is a known finding "
              "(guard VSMALL inside arccos).",
@@ -137,7 +137,7 @@ CHECKS = {
              "discretize and get_length in either order, additivity, closest parameter vs 400 samples) and curve-snapped "
              "edges (points on the curve between the vertices' parameters, length) are compared with those exact values; "
              "circle and line curves are evaluated on Arc.tla's exact circle instances."
-             " OnCurve edges are re-evaluated after their vertices were slid along the curve.",
+             " OnCurve edges are re-evaluated after their vertices were slid along the curve; on custom bounds stretches are given by explicit parameters (0 as int, float and numpy number among them).",
         note="Spline interiors are constrained only by relations (through defining points, additivity at defining points, "
              "length >= polyline); analytic lengths to 2e-4 relative (100-point discretisation). The closest-parameter "
              "clause is an order relation evaluated by the harness. Near misses (<10 %) and acute-corner branch confusion of "
@@ -151,7 +151,7 @@ CHECKS = {
              "repeated) with exact expected follower positions, and TLC checks the quarter-turn, mirror and history-"
              "independence identities; every sampled instance is mapped by a random similarity and Line/Plane/Radial/Curve/Free/"
              "ParametricSurface clamps and Translation/Rotation/Symmetry links are compared with the exact values, "
-             "including that update() leaves the leader as assigned.",
+             "including that update() leaves the leader as assigned. Every other instance hands its points and vectors over as arrays that are overwritten once the object exists.",
         note="Initial clamp positions come from scipy.minimize(tol=1e-7): compared to 1e-3 of the feature size; on-manifold "
              "checks to 1e-5. Rotation angles are multiples of 90 degrees in the lattice frame (arbitrary in world "
              "orientation through the similarity).",
@@ -175,7 +175,7 @@ CHECKS = {
              "final positions; real MeshOptimizer/SketchOptimizer runs (perturbed 2x2x2 assemblies, 3x3 sketches, Free/Plane/"
              "Line clamps, a translation link, four scipy methods and scripted minimisers realising the model's probe/worse/"
              "failure behaviours) are recorded step by step through runtime wrappers and accepted by TLC (OptimizerJudge.tla)."
-             " Optimizer.tla has NFollow followers with link functions of their own; scenarios carry 1..5 translation links (first and last vertex included) or a RadialClamp with RotationLinks.",
+             " Optimizer.tla has NFollow followers with link functions of their own; scenarios carry 1..5 translation links (first and last vertex included) or a RadialClamp with RotationLinks (two fixed runs with bounded travel and the real minimiser); sketch runs include the library's quarter / half / whole spline disks.",
         note="scipy's minimisers are environment (only the protocol around them is modelled). Step outcomes are compared with "
              "tolerances 1e-7 (quality) / 1e-6 size (positions); ties within rounding accept either outcome.",
         technique="TLA+ spec Optimizer.tla (TLC exhaustive, adversarial environment) + OptimizerJudge.tla trace validation of "
@@ -189,7 +189,7 @@ CHECKS = {
              "sets (plus 0.3/3 x TOL twins with long/short normals), RoundSolidFinder's core/rim sets are compared with "
              "geometric predicates, and a randomly distorted convex block is re-oriented from the 48 numberings x 24 frames "
              "and from viewpoints in general position (turned line of sight, pulled ceiling point) that Find.tla decides "
-             "by a clear integer margin.",
+             "by a clear integer margin. The same finder is asked again after every vertex moved to the mirrored lattice point.",
         note="Round-shape finder sets are decided by harness-side geometric predicates (on the end plane, at the rim radius).",
         technique="TLA+ spec Find.tla/Hex.tla/Lattice.tla: TLC-computed exact query results and canonical numberings; "
                   "replayed into the implementation under similarity conjugation",
@@ -201,7 +201,7 @@ CHECKS = {
              "occupied by every addressed operation, members of every slice with multiplicity, block missing from the "
              "written file after Mesh.delete(addressed)), round shapes and disk sketches as (in core, in shell, touches "
              "outer surface) per entity, and TLC judges every record."
-             " Spline-round sketches (quarter/half/full) and their extrusions are recorded, with the clause ends-from-different-locations.",
+             " Spline-round sketches (quarter/half/full) and their extrusions are recorded, with the clause ends-from-different-locations; ExtrudedStacks with an oblique amount given as list, tuple or array, operations required at the exact tier centres.",
         note="The cell an operation occupies is found by the harness from its centre against exact cell centres mapped by the "
              "harness' own rotation code. WrappedDisk has a middle ring that is neither core nor shell and is not judged.",
         technique="TLA+ spec Grid.tla: TLC-checked index arithmetic + TLC trace acceptor over observed addressing",
@@ -212,7 +212,7 @@ CHECKS = {
              "boundary; the accept/reject expectation of each (call, class) row is derived from the type and TLC checks "
              "symmetry and that both sides are exercised; a registry maps every row to a concrete call of the real API in a "
              "randomly placed setting; accepted-silently / valid-arguments-rejected are reported per row."
-             " Requires preconditions are also tested in the class 'established and undone again'; LoftedShape mid-sketch lists have rows of their own.",
+             " Requires preconditions are also tested in the class 'established and undone again'; LoftedShape mid-sketch lists have rows of their own; the perpendicularity rows are repeated with very short and very long axis vectors.",
         note="'Rejected' is any exception (the class is recorded in the replay). The list of guarded calls is the one the "
              "property statement enumerates; zero chain lengths are not judged.",
         technique="TLA+ spec Precond.tla: TLC-derived decision table over precondition types; replayed row by row into the API",
@@ -226,7 +226,7 @@ CHECKS = {
              "hemisphere, stacks, a joint, five curve types) are transformed by method calls or transformation lists and "
              "their output geometry (vertices, arc third points, spline points, edge lengths) compared with the image of the "
              "original's; copy() equivalence/independence, a copied hemisphere's geometry, helper argument immutability."
-             " Operation.invert() and constructor inputs (arrays stay the caller's) are covered; compositions are stratified by the number of mirrors and the style.",
+             " Operation.invert() and constructor inputs (arrays stay the caller's, those of update() too) are covered; compositions are stratified by the number of mirrors and the style.",
         note="Rotation angles are multiples of 90 degrees and scale ratios integers (exactness on the lattice); axes, normals "
              "and origins are non-unit / non-zero. Angle edges in the fixtures have axes perpendicular to their chords "
              "(the library's arc construction is not reversal-invariant for inconsistent angle/axis data).",
